@@ -8,6 +8,7 @@ from .interp_base import (
     BreakSig, ContinueSig, Frame, PathAbort, Raised, ReturnSig, contains_yield,
 )
 from .vals import *  # noqa: F401,F403
+from .vals import Transf
 from .vals import (
     AstCls, BoundBuiltin, Cst, Ext, Func, Gen, Hole, Obj, PDict, PList, PSet, PTuple, Rep,
     RepoCls, RepoMod, SColl, Splice, Str, StrOp, SVal, Sym, TNode, TypeOf, UList, UNode,
@@ -221,7 +222,7 @@ class StmtMixin:
 
     # ------------------------------------------------------------------ for
     def st_For(self, st, fr):
-        it = self.ev(st.iter, fr)
+        it = self.expand_splices(self.ev(st.iter, fr), f"{fr.module.rel}:{st.lineno}")
         seq = self.concrete_seq(it)
         if seq is not None:
             broke = False
@@ -275,6 +276,23 @@ class StmtMixin:
             return
         self.symbolic_for(st, it, fr)
 
+    def expand_splices(self, it, site):
+        """(a, *xs, b) with a symbolic xs: a sequence with one generic-element segment for xs."""
+        if isinstance(it, (PList, PTuple)) and any(isinstance(i, Splice) for i in it.items) and not getattr(it, "sym_elem_of", None):
+            items = []
+            for i in it.items:
+                if isinstance(i, Splice):
+                    seq = self.concrete_seq(i.v)
+                    if seq is not None:
+                        items.extend(seq)
+                    else:
+                        e, over = self.sym_elem(i.v, site)
+                        items.append(Rep([e], over, e))
+                else:
+                    items.append(i)
+            return PList(items)
+        return it
+
     def concrete_seq(self, it):
         """Concrete list of items of an iterable, or None when symbolic."""
         if isinstance(it, (PList, PTuple, PSet)):
@@ -284,6 +302,8 @@ class StmtMixin:
                 return None
             return list(it.items)
         if isinstance(it, PDict):
+            if it.sym:
+                return None
             return [k for k, _ in it.pairs]
         if isinstance(it, Cst) and isinstance(it.value, (str, tuple, list)):
             return [Cst(c) for c in it.value]
@@ -322,6 +342,10 @@ class StmtMixin:
         if isinstance(it, StrOp) and it.op in ("reversed", "sorted"):
             e, d = self.sym_elem(it.args[0], site)
             return e, f"{it.op}({d})"
+        if isinstance(it, PDict) and it.sym and not it.pairs and len(it.sym) == 1:
+            # iterating a dict filled by a symbolic loop: its keys, once per distinct key
+            r0 = it.sym[0]
+            return r0.items[0].items[0], r0.over
         if isinstance(it, PSet) and len(it.items) == 1 and isinstance(it.items[0], Rep) and len(it.items[0].items) == 1:
             # a set built from a user list: duplicates collapse, order is arbitrary
             return it.items[0].items[0], f"set({it.items[0].over})"
@@ -398,7 +422,7 @@ class StmtMixin:
                     ]
                     u.not_none = bool(rhs) and all(not (isinstance(r, ast.Constant) and r.value is None) and not isinstance(r, ast.IfExp) for r in rhs)
                     fr.locals[name] = u
-            elif isinstance(cur, (TNode, Sym, Cst, Hole, Str, StrOp, Unknown)) and not isinstance(cur, PList):
+            elif isinstance(cur, (TNode, Sym, Cst, Hole, Str, StrOp, Unknown, Transf)) and not isinstance(cur, PList):
                 h = TNode("$NestHole", {"name": Cst(name), "init": cur}, site)
                 holes[name] = (cur, h)
                 fr.locals[name] = h
@@ -658,19 +682,55 @@ class StmtMixin:
     def ex_SetComp(self, node, fr):
         return PSet(self.comprehension(node.elt, node.generators, fr, node))
 
-    def comprehension(self, elt, gens, fr, node):
-        if len(gens) != 1:
-            raise AnalysisError("nested comprehension clauses in builder code")
+    def ex_DictComp(self, node, fr):
+        pair = ast.Tuple(elts=[node.key, node.value], ctx=ast.Load())
+        ast.copy_location(pair, node)
+        d = PDict([])
+        for item in self.comprehension(pair, node.generators, fr, node):
+            if isinstance(item, Rep):
+                # keyed by a value computed from the element: entries with equal keys collapse
+                d.sym.append(Rep(list(item.items), f"bykey({item.over})", item.elem))
+            elif isinstance(item, PTuple) and len(item.items) == 2:
+                self.setitem(d, item.items[0], item.items[1], node)
+            else:
+                raise AnalysisError(f"dict comprehension item {item!r}")
+        return d
+
+    def comprehension(self, elt, gens, fr, node, inner=None):
+        """Items of a comprehension: concrete clauses are unrolled, a symbolic clause yields one Rep
+        (clauses after it are evaluated inside that generic iteration)."""
         g = gens[0]
-        it = self.ev(g.iter, fr)
-        inner = Frame(fr.module, {}, closure=fr, func=fr.func, self_obj=fr.self_obj, defcls=fr.defcls)
+        inner = inner or Frame(fr.module, {}, closure=fr, func=fr.func, self_obj=fr.self_obj, defcls=fr.defcls)
+        it = self.expand_splices(self.ev(g.iter, inner), f"{fr.module.rel}:{node.lineno}")
         seq = self.concrete_seq(it)
+        if isinstance(it, PDict) and it.sym:
+            seq = None
         out = []
+        if seq is None and isinstance(it, PList) and not it.sym_elem_of and len(it.items) > 1 and all(not isinstance(i, Splice) for i in it.items) and all(len(i.items) == 1 for i in it.items if isinstance(i, Rep)):
+            # mixed sequence: concrete items one by one, each symbolic segment as one generic element
+            for item in it.items:
+                sub_iter = PList([item])
+                out.extend(self._comp_over(elt, gens, fr, node, inner, sub_iter))
+            return out
+        return self._comp_over(elt, gens, fr, node, inner, it)
+
+    def _comp_over(self, elt, gens, fr, node, inner, it):
+        g = gens[0]
+        seq = self.concrete_seq(it)
+        if isinstance(it, PDict) and it.sym:
+            seq = None
+        out = []
+
+        def body():
+            if len(gens) > 1:
+                return self.comprehension(elt, gens[1:], fr, node, inner)
+            return [self.ev(elt, inner)]
+
         if seq is not None:
             for item in seq:
                 self.assign(g.target, item, inner)
                 if all(self.truth(self.ev(c, inner), c) for c in g.ifs):
-                    out.append(self.ev(elt, inner))
+                    out.extend(body())
             return out
         site = f"{fr.module.rel}:{node.lineno}"
         e, over = self.sym_elem(it, site)
@@ -679,10 +739,12 @@ class StmtMixin:
         try:
             conds = [self.truth(self.ev(c, inner), c) for c in g.ifs]
             if all(conds):
-                r = Rep([self.ev(elt, inner)], over, e)
-                # some elements are left out: positions in the result are not positions in the source
-                r.filtered = bool(g.ifs)
-                out.append(r)
+                items = body()
+                if items:
+                    r = Rep(items, over, e)
+                    # some elements are left out: positions in the result are not positions in the source
+                    r.filtered = bool(g.ifs)
+                    out.append(r)
         finally:
             self.rep_stack.pop()
         return out
